@@ -159,7 +159,15 @@ impl fmt::Display for Number {
 
         match self {
             Int(number) => write!(f, "{number}"),
-            Float(number) => write!(f, "{number}"),
+            Float(number) => {
+                // Display drops the fractional part of a whole number, which would turn a float into an integer
+                let text = number.to_string();
+                if number.is_finite() && !text.contains('.') {
+                    write!(f, "{text}.0")
+                } else {
+                    write!(f, "{text}")
+                }
+            }
         }
     }
 }
